@@ -26,12 +26,30 @@ def real_inspect(nodes):
     """(accepted, inspection, error message)"""
     pipegen.setup()
     from semantiva.inspection import build_pipeline_inspection, validate_pipeline
-    insp = build_pipeline_inspection(copy.deepcopy(nodes))
+    work = copy.deepcopy(nodes)
+    insp = build_pipeline_inspection(work)
+    if _cfg_view(work) != _cfg_view(nodes):
+        MUTATED.append({"given": copy.deepcopy(nodes), "after_inspection": work})
     try:
         validate_pipeline(insp)
         return True, insp, None
     except Exception as exc:  # PipelineConfigurationError
         return False, insp, str(exc)
+
+
+MUTATED: list = []          # configurations that build_pipeline_inspection altered in place
+
+
+def _cfg_view(nodes):
+    """The meaning of a configuration as text: parameter shorthands in their documented resolved form, descriptor objects as
+    their JSON form, an absent `parameters` block as an empty one (writing those normal forms back is not a change)."""
+    from props import idgen
+    out = []
+    for n in nodes:
+        m = {k: v for k, v in n.items() if k != "parameters"}
+        m["parameters"] = idgen.resolve_doc(n.get("parameters") or {})
+        out.append(m)
+    return json.dumps(out, sort_keys=True, default=lambda o: o.to_json() if hasattr(o, "to_json") else repr(o))
 
 
 def first_input_type(nodes):
@@ -182,6 +200,62 @@ def check_accepted(rep, stats, rnd, nodes, insp, pub, given=None):
                 writers.pop(k, None)
             before = after
     return required
+
+
+def inspect_then_run_same_objects(rep, stats, rnd):
+    """What `semantiva run` does: the node dicts that were inspected are the ones the pipeline is built from.  Uses the
+    framework's own ModelFittingContextProcessor, whose node factory consumes some of the node's parameters."""
+    pipegen.setup()
+    from semantiva.inspection import build_pipeline_inspection, validate_pipeline
+    from semantiva.pipeline import Pipeline, Payload
+    from semantiva.context_processors import ContextType
+    from semantiva.data_types import NoDataType
+    shapes = []
+    for mapping in (True, False):
+        for ck in ("fit_out", None):
+            for consumer in ("rename", "template", None):
+                params = {"fitting_model": rnd.choice(["model:TFitModel:degree=1", "model:TFitModel"])}
+                if mapping:
+                    params.update({"independent_var_key": "xs", "dependent_var_key": "ys"})
+                if ck:
+                    params["context_key"] = ck
+                out = ck or "fit.parameters"
+                nodes = [{"processor": "TSourceDef"}, {"processor": "ModelFittingContextProcessor", "parameters": params}]
+                if consumer == "rename":
+                    nodes.append({"processor": f"rename:{out}:final_fit"})
+                elif consumer == "template" and "." not in out:          # template placeholders are plain identifiers
+                    nodes.append({"processor": 'template:"{%s}":shown' % out})
+                nodes.append({"processor": "TOp0"})
+                shapes.append(nodes)
+    for nodes in shapes:
+        stats["inspect_then_run"] = stats.get("inspect_then_run", 0) + 1
+        given = _cfg_view(nodes)
+        pub = {"nodes": json.loads(given), "how": "build_pipeline_inspection(nodes); validate_pipeline; Pipeline(nodes).process — the same objects"}
+        try:
+            insp = build_pipeline_inspection(nodes)
+            validate_pipeline(insp)
+        except Exception as exc:  # noqa: BLE001
+            rep.add_violation("valid-configuration-rejected:model-fitting", f"inspection / validation rejects a valid model-fitting pipeline: {exc!r}", pub)
+            continue
+        if _cfg_view(nodes) != given:
+            rep.add_violation("inspection-mutates-configuration", "build_pipeline_inspection altered the node configuration it was given "
+                              "(a pipeline built from it afterwards is not the one that was inspected)", dict(pub, after_inspection=json.loads(_cfg_view(nodes))))
+        required = sorted(insp.required_context_keys)
+        ctx0 = {k: [1.0, 2.0, 3.0] for k in required}
+        try:
+            out = Pipeline(nodes).process(Payload(NoDataType(), ContextType(copy.deepcopy(ctx0))))
+        except Exception as exc:  # noqa: BLE001
+            cls = pipegen.classify(exc)
+            if cls[1] in FLOW_FINE:
+                rep.add_violation(f"accepted-but-flow-error:{cls[1]}:inspect-then-run-same-objects",
+                                  f"inspection and validation report no error and every required key {required} is supplied, yet the run of the "
+                                  f"same configuration objects fails on flow: {exc!r}", dict(pub, required=required))
+            continue
+        created = set().union(*[set(n.created_keys) for n in insp.nodes]) - set().union(*[set(n.suppressed_keys) for n in insp.nodes])
+        missing = sorted(k for k in created if k not in out.context.to_dict())
+        if missing:
+            rep.add_violation("created-keys-untrue:inspect-then-run-same-objects", f"keys reported as created are absent after the run: {missing}",
+                              dict(pub, context_keys=sorted(out.context.to_dict())))
 
 
 def swept_pipelines(rep, stats, rnd, n):
@@ -389,6 +463,11 @@ def run(tier: str) -> int:
         if len(samples) < 4 and i % 251 == 0:
             samples.append({"nodes": nodes, "required": required})
     swept_pipelines(rep, stats, rnd, 150 if tier == "quick" else 1500)
+    inspect_then_run_same_objects(rep, stats, rnd)
+    for m in MUTATED[:3]:
+        rep.add_violation("inspection-mutates-configuration", "build_pipeline_inspection altered the node configuration it was given", m)
+    stats["configurations_checked_for_mutation"] = stats["cases"]
+    del MUTATED[:]
     if origin_disagreements:
         rep.add_broken(f"correspondence C02: reported parameter origins and the model's origin analysis differ on {len(origin_disagreements)} nodes, "
                        "first " + json.dumps(origin_disagreements[0], default=str)[:700])
